@@ -890,8 +890,18 @@ func (self *Pipestance) SetUuid(uuid string) error {
 
 func (self *Pipestance) Lock() error {
 	self.metadata.loadCache()
-	if self.metadata.exists(Lock) {
+	// Create the lock file exclusively, so that if several instances try to
+	// lock the pipestance at the same moment exactly one of them succeeds.
+	// The signal handler (which removes the lock file) is only registered
+	// once this instance owns the lock: an instance which was refused must
+	// never be in a position to remove the owner's lock.
+	if f, err := os.OpenFile(self.metadata.MetadataFilePath(Lock),
+		os.O_WRONLY|os.O_CREATE|os.O_EXCL, 0644); err == nil {
+		f.Close()
+	} else if os.IsExist(err) {
 		return &PipestanceLockedError{self.node.top.GetPsid(), self.GetPath()}
+	} else {
+		util.LogError(err, "runtime", "Error creating pipestance lock file.")
 	}
 	util.RegisterSignalHandler(self)
 	if err := self.metadata.WriteTime(Lock); err != nil {
